@@ -24,7 +24,7 @@
 (***************************************************************************)
 EXTENDS Naturals, Sequences, FiniteSets, TLC
 
-Keys(m) == DOMAIN m
+DocKeys(m) == DOMAIN m
 Del(m, k) == [x \in DOMAIN m \ {k} |-> m[x]]
 Fail(r, k) == [r EXCEPT !.ok = FALSE, !.err = k]
 
@@ -34,7 +34,7 @@ ReadFields(fs, r) ==
     IF fs = << >> \/ ~r.ok THEN r
     ELSE LET f == Head(fs) IN
          IF f.k = "prop" THEN
-              IF f.name \notin Keys(r.left) THEN (IF f.req THEN Fail(r, f.name) ELSE ReadFields(Tail(fs), r))
+              IF f.name \notin DocKeys(r.left) THEN (IF f.req THEN Fail(r, f.name) ELSE ReadFields(Tail(fs), r))
               ELSE LET v == r.left[f.name] IN
                    IF v = "bad" THEN Fail(r, f.name)
                    ELSE ReadFields(Tail(fs), [r EXCEPT !.left = Del(r.left, f.name),
@@ -49,8 +49,8 @@ ReadObj(o, doc) ==
         r  == ReadFields(o.fields, r0) IN
     IF ~r.ok THEN r
     ELSE IF o.addl = "none" THEN r
-    ELSE IF \E k \in Keys(r.left) : r.left[k] = "bad" THEN Fail(r, CHOOSE k \in Keys(r.left) : r.left[k] = "bad")
-    ELSE [r EXCEPT !.extras = Keys(r.left), !.left = [x \in {} |-> "ok"]]      \* (a null extra becomes the zero value as well)
+    ELSE IF \E k \in DocKeys(r.left) : r.left[k] = "bad" THEN Fail(r, CHOOSE k \in DocKeys(r.left) : r.left[k] = "bad")
+    ELSE [r EXCEPT !.extras = DocKeys(r.left), !.left = [x \in {} |-> "ok"]]      \* (a null extra becomes the zero value as well)
 
 (* ---------------- Prop layer: what reading a document must amount to ---------------- *)
 RECURSIVE Declared(_)
@@ -59,16 +59,16 @@ DeclNames(o) == { p.name : p \in Declared(o) }
 \* the faults C08 speaks of: a required key missing, a non-null value of the wrong type (for additional properties
 \* of a typed map as well: that is what keeps them "where the schema allows them")
 Faulty(o, doc) == { p.name : p \in { q \in Declared(o) :
-                       \/ (q.req /\ q.name \notin Keys(doc))
-                       \/ (q.name \in Keys(doc) /\ doc[q.name] = "bad") } }
-                  \cup (IF o.addl = "typed" THEN { k \in Keys(doc) \ DeclNames(o) : doc[k] = "bad" } ELSE {})
+                       \/ (q.req /\ q.name \notin DocKeys(doc))
+                       \/ (q.name \in DocKeys(doc) /\ doc[q.name] = "bad") } }
+                  \cup (IF o.addl = "typed" THEN { k \in DocKeys(doc) \ DeclNames(o) : doc[k] = "bad" } ELSE {})
 ReadRefinesProp(o, doc) ==
     LET r == ReadObj(o, doc) IN
     IF Faulty(o, doc) = {} THEN /\ r.ok
-                               /\ r.set = { k \in Keys(doc) \cap DeclNames(o) : doc[k] = "ok" }
-                               /\ r.nulls \cup r.zeros = { k \in Keys(doc) \cap DeclNames(o) : doc[k] = "null" }
+                               /\ r.set = { k \in DocKeys(doc) \cap DeclNames(o) : doc[k] = "ok" }
+                               /\ r.nulls \cup r.zeros = { k \in DocKeys(doc) \cap DeclNames(o) : doc[k] = "null" }
                                /\ \A p \in Declared(o) : (p.name \in r.nulls => p.nullable) /\ (p.name \in r.zeros => ~p.nullable)
-                               /\ r.extras = (IF o.addl = "typed" THEN Keys(doc) \ DeclNames(o) ELSE {})
+                               /\ r.extras = (IF o.addl = "typed" THEN DocKeys(doc) \ DeclNames(o) ELSE {})
     ELSE ~r.ok /\ r.err \in Faulty(o, doc)
 
 (* ---------------- oneOf ---------------- *)
@@ -88,11 +88,11 @@ ReadOneOfDisc(vs, table, tag, doc) ==
     ELSE LET r == ReadObj(vs[table[tag]], doc) IN [ok |-> r.ok, variant |-> IF r.ok THEN table[tag] ELSE 0, read |-> r]
 
 \* Prop: a document that is fault-free for exactly one variant is read as that variant, completely
-ValidFor(vs, doc) == { i \in DOMAIN vs : Faulty(vs[i], doc) = {} /\ (vs[i].addl = "none" => Keys(doc) \subseteq DeclNames(vs[i])) }
+ValidFor(vs, doc) == { i \in DOMAIN vs : Faulty(vs[i], doc) = {} /\ (vs[i].addl = "none" => DocKeys(doc) \subseteq DeclNames(vs[i])) }
 OneOfRefinesProp(vs, doc, shared) ==
     LET ok == { i \in DOMAIN vs : Faulty(vs[i], doc) = {} } IN       \* what the generated reader can accept (silent extras)
     (Cardinality(ok) = 1) =>
         LET i == CHOOSE x \in ok : TRUE
             r == ReadOneOf(vs, doc, shared) IN
-        r.ok /\ r.variant = i /\ r.read.set = { k \in Keys(doc) \cap DeclNames(vs[i]) : doc[k] = "ok" }
+        r.ok /\ r.variant = i /\ r.read.set = { k \in DocKeys(doc) \cap DeclNames(vs[i]) : doc[k] = "ok" }
 =============================================================================
